@@ -16,6 +16,7 @@ DIG = {"md5": "d41d8cd98f00b204e9800998ecf8427e", "sha1": "da39a3ee5e6b4b0d3255b
 DIG2 = {f: ref.digest(f, b"other") for f in DIG}
 D_US = datetime.datetime(2020, 7, 1, 10, 40, 0, 250000)
 D_S = datetime.datetime(2021, 1, 2, 3, 4, 5)
+STEP = datetime.timedelta(seconds=7, microseconds=1)
 
 AUTHORS = [[], [("Jane Doe", None, None, None)], [("Jane Doe", "j@x.org", "+1 555", "DIT")], [(None, "only@mail.org", None, None)],
            [("A & <B>", None, None, "role \"q\"")], [("-", None, None, None)], [("-", "dash@x.org", None, None)],
@@ -75,22 +76,23 @@ def build_and_roundtrip(ctx, spec, case):
     def add_file(path, size, fmts, action, hashdate, prev):
         mh = HL.MHLMediaHash()
         mh.path, mh.file_size, mh.last_modification_date, mh.previous_path = path, size, D_S, prev
-        for f in fmts:
-            mh.append_hash_entry(HL.MHLHashEntry(f, DIG[f], action, hashdate))
+        # every digest of a record carries its own hash date (they are made one after the other)
+        for k, f in enumerate(fmts):
+            mh.append_hash_entry(HL.MHLHashEntry(f, DIG[f], action, hashdate + STEP * k))
         hl.append_hash(mh)
-        written["records"].append(("file", path, size, prev, [(f, DIG[f], action, hashdate, None) for f in fmts]))
+        written["records"].append(("file", path, size, prev, [(f, DIG[f], action, hashdate + STEP * k, None) for k, f in enumerate(fmts)]))
 
     add_file(spec["path"], spec["size"], spec["fmts"], spec["action"], spec["hashdate"], spec["prev"])
     for i in range(spec["extra_records"]):
         add_file(f"extra/{i} {TEXTS[(i * 5 + 3) % len(TEXTS)]}", i, ["md5", "xxh64"], "verified", D_S, None)
     mh = HL.MHLMediaHash()
     mh.path, mh.is_directory, mh.last_modification_date = spec["dirpath"], True, D_S
-    for f in spec["dirfmts"]:
-        e = HL.MHLHashEntry(f, DIG[f], None, D_US)
+    for k, f in enumerate(spec["dirfmts"]):
+        e = HL.MHLHashEntry(f, DIG[f], None, D_US + STEP * k)
         e.structure_hash_string = DIG2[f]
         mh.append_hash_entry(e)
     hl.append_hash(mh)
-    written["records"].append(("dir", spec["dirpath"], None, None, [(f, DIG[f], None, D_US, DIG2[f]) for f in spec["dirfmts"]]))
+    written["records"].append(("dir", spec["dirpath"], None, None, [(f, DIG[f], None, D_US + STEP * k, DIG2[f]) for k, f in enumerate(spec["dirfmts"])]))
     if spec["roothash"] is not None:
         rh = HL.MHLMediaHash()
         rh.path, rh.is_directory = ".", True
